@@ -35,7 +35,9 @@
 //! Expressions: literals; paths; `! -`; `+ - * / % && || == != < <= > >=`;
 //! `if/else`, `if let … else`; `match` over enums / tuples / literals / `_` /
 //! bindings / top-level or-patterns / `Some None Ok Err`, with guards (a guarded
-//! arm becomes `if guard then body else <match on the remaining arms>`);
+//! arm becomes `| p => if guard then body else REST`, REST = a match on the same
+//! scrutinee over the unguarded arms before it and all arms after it; generated
+//! files set `match.ignoreUnusedAlts` because REST may list unreachable arms);
 //! `matches!(e, pat if guard)`; blocks with `let` (tuple destructuring,
 //! shadowing); half-open ranges `a..b` (→ pair); `unreachable!()` in result
 //! position (→ designated default `0`/`default`, tracked by `f_reachable`);
@@ -512,7 +514,7 @@ fn main() {
         for d in &deps {
             text.push_str(&format!("import IQE.Gen.{}\n", d));
         }
-        text.push_str("set_option linter.unusedVariables false\n\n");
+        text.push_str("set_option linter.unusedVariables false\nset_option match.ignoreUnusedAlts true\n\n");
         text.push_str(&format!("namespace IQE.Gen.{}\n\n", module));
         if let Some(p) = str_of(m, "prelude") {
             text.push_str(p.trim_end());
